@@ -1662,3 +1662,166 @@ Proof.
     split; [unfold ordered in Ox; lia|].
     apply (IH Ol (snd x)). cbn [app chain]. auto.
 Qed.
+
+(* ---------- J: the property theorems, on the model ---------- *)
+
+Definition cie_items (dbg : bool) (f : fde_in) : list item := decode dbg (f_dparams f) (f_cie_off f) (f_cie f).
+Definition fde_items (dbg : bool) (f : fde_in) : list item := decode dbg (f_dparams f) (f_fde_off f) (f_fde f).
+(* the unlimited DWARF machine on this CIE/FDE *)
+Definition spec_unl (dbg : bool) (f : fde_in) : list srow * outcome :=
+  run_spec (sparams_of f) (f_init f) (spec_end (f_asize f) (f_init f) (f_range f)) (cie_items dbg f) (fde_items dbg f).
+Definition within_limits (dbg : bool) (c : caps) (f : fde_in) : bool :=
+  fits_run c (sparams_of f) (f_init f) (cie_items dbg f) (fde_items dbg f).
+
+Lemma fde_rows_invalid dbg c f cx :
+  valid_asize (f_asize f) = false -> fst (fde_rows dbg c f cx) = ([], Fail EUnsupportedAddressSize).
+Proof. intros H. unfold fde_rows, fde_rows_lim. rewrite H. reflexivity. Qed.
+
+Lemma fde_rows_nocap dbg c f cx :
+  valid_asize (f_asize f) = true -> cap_full (max_stack c) 0 = true -> fst (fde_rows dbg c f cx) = ([], Crash).
+Proof.
+  intros Hv H. unfold fde_rows, fde_rows_lim, table_new, initialize, reset. rewrite Hv, H. reflexivity.
+Qed.
+
+Lemma row_equiv_spans rows srows : Forall2 row_equiv rows srows -> map mspan rows = map sspan srows.
+Proof.
+  induction 1 as [|r sr rows srows (E1 & E2 & _) _ IH]; [reflexivity|].
+  cbn [map]. unfold mspan at 1, sspan at 1. rewrite E1, E2, IH. reflexivity.
+Qed.
+
+Theorem rows_shape_thm dbg c f cx :
+  shape (f_init f) (end_address f) (map mspan (fst (fst (fde_rows dbg c f cx)))) (snd (fst (fde_rows dbg c f cx))).
+Proof.
+  destruct (valid_asize (f_asize f)) eqn:Hv.
+  - destruct (cap_full (max_stack c) 0) eqn:Hc.
+    + rewrite (fde_rows_nocap dbg c f cx Hv Hc). cbn. split; [exact I|constructor].
+    + destruct (model_eq_spec dbg c f cx Hv Hc) as (H1 & H2).
+      rewrite (row_equiv_spans _ _ H1), H2, (end_address_spec f Hv). apply run_spec_lim_shape.
+  - rewrite (fde_rows_invalid dbg c f cx Hv). cbn. split; [exact I|constructor].
+Qed.
+
+Theorem rows_nondecreasing_thm dbg c f cx :
+  nondec (map r_start (fst (fst (fde_rows dbg c f cx)))).
+Proof.
+  pose proof (shape_nondec _ _ _ _ (rows_shape_thm dbg c f cx)) as H.
+  rewrite map_map in H. exact H.
+Qed.
+
+Lemma outcome_done_not_limit : ~ is_limit Done.
+Proof. intros [H|H]; discriminate. Qed.
+
+Theorem refines_thm dbg c f cx rows :
+  fst (fde_rows dbg c f cx) = (rows, Done) ->
+  exists rows', spec_unl dbg f = (rows', Done) /\ Forall2 row_equiv rows rows'.
+Proof.
+  intros H.
+  destruct (valid_asize (f_asize f)) eqn:Hv; [|rewrite (fde_rows_invalid dbg c f cx Hv) in H; discriminate].
+  destruct (cap_full (max_stack c) 0) eqn:Hc; [rewrite (fde_rows_nocap dbg c f cx Hv Hc) in H; discriminate|].
+  destruct (model_eq_spec dbg c f cx Hv Hc) as (H1 & H2). rewrite H in H1, H2. cbn [fst snd] in H1, H2.
+  unfold spec_of in H1, H2.
+  destruct (run_spec_fits c (sparams_of f) (f_init f) (spec_end (f_asize f) (f_init f) (f_range f))
+              (cie_items dbg f) (fde_items dbg f)) as [(F & E)|(F & L & P)].
+  - unfold cie_items, fde_items in E. rewrite E in H1, H2.
+    exists (fst (spec_unl dbg f)). split; [|exact H1].
+    unfold spec_unl, cie_items, fde_items. rewrite (surjective_pairing (run_spec _ _ _ _ _)). f_equal. auto.
+  - unfold cie_items, fde_items in L. rewrite <- H2 in L. exfalso. exact (outcome_done_not_limit L).
+Qed.
+
+Theorem error_is_specific_thm dbg c f cx rows e :
+  fst (fde_rows dbg c f cx) = (rows, Fail e) ->
+  (valid_asize (f_asize f) = false /\ e = EUnsupportedAddressSize /\ rows = []) \/
+  (exists rows', spec_unl dbg f = (rows', Fail e) /\ Forall2 row_equiv rows rows') \/
+  ((e = EStackFull \/ e = ETooManyRegisterRules) /\ within_limits dbg c f = false /\
+   exists rows', Forall2 row_equiv rows rows' /\ prefix rows' (fst (spec_unl dbg f))).
+Proof.
+  intros H.
+  destruct (valid_asize (f_asize f)) eqn:Hv.
+  2: { rewrite (fde_rows_invalid dbg c f cx Hv) in H. inversion H; subst. left. auto. }
+  destruct (cap_full (max_stack c) 0) eqn:Hc; [rewrite (fde_rows_nocap dbg c f cx Hv Hc) in H; discriminate|].
+  destruct (model_eq_spec dbg c f cx Hv Hc) as (H1 & H2). rewrite H in H1, H2. cbn [fst snd] in H1, H2.
+  unfold spec_of in H1, H2. right.
+  destruct (run_spec_fits c (sparams_of f) (f_init f) (spec_end (f_asize f) (f_init f) (f_range f))
+              (cie_items dbg f) (fde_items dbg f)) as [(F & E)|(F & L & P)].
+  - left. unfold cie_items, fde_items in E. rewrite E in H1, H2.
+    exists (fst (spec_unl dbg f)). split; [|exact H1].
+    unfold spec_unl, cie_items, fde_items. rewrite (surjective_pairing (run_spec _ _ _ _ _)). f_equal. auto.
+  - right. unfold cie_items, fde_items in L, P. rewrite <- H2 in L.
+    split; [destruct L as [L|L]; inversion L; auto|]. split; [exact F|].
+    eexists. split; [exact H1|exact P].
+Qed.
+
+Theorem no_silent_limit_thm dbg c f cx :
+  valid_asize (f_asize f) = true -> cap_full (max_stack c) 0 = false ->
+  within_limits dbg c f = true ->
+  Forall2 row_equiv (fst (fst (fde_rows dbg c f cx))) (fst (spec_unl dbg f)) /\
+  snd (fst (fde_rows dbg c f cx)) = snd (spec_unl dbg f).
+Proof.
+  intros Hv Hc Hf.
+  destruct (model_eq_spec dbg c f cx Hv Hc) as (H1 & H2). unfold spec_of in H1, H2.
+  destruct (run_spec_fits c (sparams_of f) (f_init f) (spec_end (f_asize f) (f_init f) (f_range f))
+              (cie_items dbg f) (fde_items dbg f)) as [(F & E)|(F & L & P)].
+  - unfold cie_items, fde_items in E. rewrite E in H1, H2. auto.
+  - unfold within_limits in Hf. congruence.
+Qed.
+
+(* no panic, and the fuel of the model always suffices *)
+Lemma dec_clean dbg d : forall n it, (length (it_bytes it) <= n)%nat ->
+  Forall (fun x => x <> BadPanic /\ x <> BadFuel) (dec dbg d it).
+Proof.
+  induction n as [|n IH]; intros it Hn; rewrite dec_unfold;
+    pose proof (iter_next_cases dbg d it) as Hc;
+    destruct (iter_next dbg d it) as [[[i|]|e| |] it']; try contradiction;
+    try (constructor; [split; discriminate|]); try constructor.
+  - lia.
+  - apply IH. lia.
+Qed.
+
+Lemma spec_step_total p ini s i : spec_step p ini s i <> Panic /\ spec_step p ini s i <> OutOfFuel.
+Proof.
+  destruct i; cbn [spec_step];
+    repeat match goal with
+           | |- context [if ?x then _ else _] => destruct x
+           | |- context [match ?x with _ => _ end] => destruct x
+           end; split; discriminate.
+Qed.
+
+Lemma spec_run_clean c p ini e : forall items s,
+  Forall (fun x => x <> BadPanic /\ x <> BadFuel) items ->
+  fst (snd (spec_run c p ini e s items)) <> Crash /\ fst (snd (spec_run c p ini e s items)) <> Fuel.
+Proof.
+  induction items as [|x items IH]; intros s Hf; [cbn; split; discriminate|].
+  inversion Hf as [|? ? (Hx1 & Hx2) Hf']; subst.
+  destruct x as [i|er| |]; try congruence; cbn [spec_run]; [|cbn; split; discriminate].
+  unfold step_lim. destruct (spec_step_total p ini s i) as (T1 & T2).
+  destruct (spec_step p ini s i) as [[s' orow]|er| |]; try congruence; cbn [bind]; [|cbn; split; discriminate].
+  destruct (guard_cases c ini s') as [Hg|[Hg|Hg]]; rewrite Hg; cbn [bind]; try (cbn; split; discriminate).
+  specialize (IH s' Hf'). destruct (spec_run c p ini e s' items) as [rows [o sf]].
+  destruct orow; exact IH.
+Qed.
+
+Theorem no_panic_thm dbg c f cx :
+  cap_full (max_stack c) 0 = false ->
+  snd (fst (fde_rows dbg c f cx)) <> Crash /\ snd (fst (fde_rows dbg c f cx)) <> Fuel.
+Proof.
+  intros Hc. destruct (valid_asize (f_asize f)) eqn:Hv;
+    [|rewrite (fde_rows_invalid dbg c f cx Hv); cbn; split; discriminate].
+  destruct (model_eq_spec dbg c f cx Hv Hc) as (_ & H2). rewrite H2.
+  unfold spec_of, run_spec_lim.
+  pose proof (dec_clean dbg (f_dparams f) _ {| it_off := f_cie_off f; it_bytes := f_cie f |} (le_n _)) as Dc.
+  pose proof (dec_clean dbg (f_dparams f) _ {| it_off := f_fde_off f; it_bytes := f_fde f |} (le_n _)) as Df.
+  change (dec dbg (f_dparams f) {| it_off := f_cie_off f; it_bytes := f_cie f |})
+    with (decode dbg (f_dparams f) (f_cie_off f) (f_cie f)) in Dc.
+  change (dec dbg (f_dparams f) {| it_off := f_fde_off f; it_bytes := f_fde f |})
+    with (decode dbg (f_dparams f) (f_fde_off f) (f_fde f)) in Df.
+  pose proof (spec_run_clean c (sparams_of f) None 0 _ init_state Dc) as Hcl.
+  destruct (spec_run c (sparams_of f) None 0 init_state (decode dbg (f_dparams f) (f_cie_off f) (f_cie f)))
+    as [rows_c [o_c sc]]. cbn [fst snd] in Hcl.
+  destruct o_c; cbn [snd]; try (split; discriminate); try (destruct Hcl; congruence).
+  destruct (guard_cases c (Some (s_rules sc)) (with_loc (f_init f) sc)) as [Hg|[Hg|Hg]]; rewrite Hg;
+    try (cbn; split; discriminate).
+  pose proof (spec_run_clean c (sparams_of f) (Some (s_rules sc))
+                (spec_end (f_asize f) (f_init f) (f_range f)) _ (with_loc (f_init f) sc) Df) as Hcl2.
+  destruct (spec_run c (sparams_of f) (Some (s_rules sc)) (spec_end (f_asize f) (f_init f) (f_range f))
+              (with_loc (f_init f) sc) (decode dbg (f_dparams f) (f_fde_off f) (f_fde f))) as [rows [o sf]].
+  exact Hcl2.
+Qed.
